@@ -1,0 +1,23 @@
+//go:build verif
+
+package diodes
+
+import "sync/atomic"
+
+var verifHook atomic.Value // of func(point string, arg uint64)
+
+// SetVerifHook installs f to be called at every instrumentation point.
+// Passing nil removes the hook.
+func SetVerifHook(f func(point string, arg uint64)) {
+	if f == nil {
+		f = func(string, uint64) {}
+	}
+	verifHook.Store(f)
+}
+
+// VerifAt reports that the calling goroutine reached point.
+func VerifAt(point string, arg uint64) {
+	if f, _ := verifHook.Load().(func(string, uint64)); f != nil {
+		f(point, arg)
+	}
+}
